@@ -6,11 +6,15 @@ import (
 	"math/big"
 
 	"github.com/bnb-chain/tss-lib/tss"
+	"github.com/ipfs/go-log/v2"
 	"github.com/keep-network/keep-core/pkg/protocol/group"
+	"github.com/keep-network/keep-core/pkg/protocol/state"
+	"github.com/keep-network/keep-core/pkg/tecdsa"
 )
 
 // Verification hook (build tag verif) for property C08: re-exports the signing
-// identity converter only.
+// identity converter, the first protocol state, message constructors and
+// receivedMessages.
 
 // VerifC08MemberIndexToKey is identityConverter.MemberIndexToTssPartyIDKey.
 func VerifC08MemberIndexToKey(keys []*big.Int, idx group.MemberIndex) *big.Int {
@@ -30,4 +34,121 @@ func VerifC08PartyIDToMemberIndex(keys []*big.Int, key *big.Int) group.MemberInd
 func VerifC08RoundTrip(keys []*big.Int, idx group.MemberIndex) group.MemberIndex {
 	ic := &identityConverter{keys: keys}
 	return ic.TssPartyIDToMemberIndex(ic.MemberIndexToTssPartyID(idx))
+}
+
+// VerifC08InitialState builds the member with newMember, applies the given
+// disqualifications with group.MarkMemberAsDisqualified (the caller passes what
+// signing.Execute would pass) and returns the first protocol state exactly as
+// signing.Execute builds it.
+func VerifC08InitialState(
+	logger log.StandardLogger,
+	message *big.Int,
+	sessionID string,
+	memberIndex group.MemberIndex,
+	privateKeyShare *tecdsa.PrivateKeyShare,
+	groupSize int,
+	dishonestThreshold int,
+	disqualified []group.MemberIndex,
+	membershipValidator *group.MembershipValidator,
+) state.AsyncState {
+	member := newMember(
+		logger,
+		memberIndex,
+		groupSize,
+		dishonestThreshold,
+		membershipValidator,
+		sessionID,
+		message,
+		privateKeyShare,
+	)
+	for _, index := range disqualified {
+		member.group.MarkMemberAsDisqualified(index)
+	}
+	return &ephemeralKeyPairGenerationState{
+		BaseAsyncState: state.NewBaseAsyncState(),
+		member:         member.initializeEphemeralKeysGeneration(),
+	}
+}
+
+// VerifC08KindCount is the number of signing protocol message types.
+const VerifC08KindCount = 10
+
+// VerifC08NewMessage constructs a signing protocol message payload: kind 0 is
+// the ephemeral public key message, 1..9 the TSS round messages.
+func VerifC08NewMessage(
+	kind int,
+	senderID group.MemberIndex,
+	sessionID string,
+) interface {
+	SenderID() group.MemberIndex
+	SessionID() string
+	Type() string
+} {
+	switch kind {
+	case 0:
+		return &ephemeralPublicKeyMessage{senderID: senderID, sessionID: sessionID}
+	case 1:
+		return &tssRoundOneMessage{senderID: senderID, sessionID: sessionID}
+	case 2:
+		return &tssRoundTwoMessage{senderID: senderID, sessionID: sessionID}
+	case 3:
+		return &tssRoundThreeMessage{senderID: senderID, sessionID: sessionID}
+	case 4:
+		return &tssRoundFourMessage{senderID: senderID, sessionID: sessionID}
+	case 5:
+		return &tssRoundFiveMessage{senderID: senderID, sessionID: sessionID}
+	case 6:
+		return &tssRoundSixMessage{senderID: senderID, sessionID: sessionID}
+	case 7:
+		return &tssRoundSevenMessage{senderID: senderID, sessionID: sessionID}
+	case 8:
+		return &tssRoundEightMessage{senderID: senderID, sessionID: sessionID}
+	case 9:
+		return &tssRoundNineMessage{senderID: senderID, sessionID: sessionID}
+	}
+	return nil
+}
+
+func verifC08Collect[T message](base *state.BaseAsyncState) []interface{} {
+	var out []interface{}
+	for _, m := range receivedMessages[T](base) {
+		out = append(out, m)
+	}
+	return out
+}
+
+// VerifC08ReceivedMessages is receivedMessages[T] for the message kind.
+func VerifC08ReceivedMessages(base *state.BaseAsyncState, kind int) []interface{} {
+	switch kind {
+	case 0:
+		return verifC08Collect[*ephemeralPublicKeyMessage](base)
+	case 1:
+		return verifC08Collect[*tssRoundOneMessage](base)
+	case 2:
+		return verifC08Collect[*tssRoundTwoMessage](base)
+	case 3:
+		return verifC08Collect[*tssRoundThreeMessage](base)
+	case 4:
+		return verifC08Collect[*tssRoundFourMessage](base)
+	case 5:
+		return verifC08Collect[*tssRoundFiveMessage](base)
+	case 6:
+		return verifC08Collect[*tssRoundSixMessage](base)
+	case 7:
+		return verifC08Collect[*tssRoundSevenMessage](base)
+	case 8:
+		return verifC08Collect[*tssRoundEightMessage](base)
+	case 9:
+		return verifC08Collect[*tssRoundNineMessage](base)
+	}
+	return nil
+}
+
+// VerifC08Base returns the shared message history of the first protocol state
+// (every later state built by Next() shares the same instance).
+func VerifC08Base(s state.AsyncState) *state.BaseAsyncState {
+	if st, ok := s.(*ephemeralKeyPairGenerationState); ok {
+		return st.BaseAsyncState
+	}
+	return nil
 }
